@@ -1548,8 +1548,9 @@ class Bits:
         chunk_size = 8 * 100 * 1024 * 1024  # 100 MiB
         if os.environ.get("BITSTRING_VERIF") == "1" and "BITSTRING_VERIF_TOFILE_CHUNK_BITS" in os.environ:
             chunk_size = int(os.environ["BITSTRING_VERIF_TOFILE_CHUNK_BITS"])
-        for chunk in self.cut(chunk_size):
-            f.write(chunk.tobytes())
+        # Positions are absolute (MSB0) whatever the lsb0 option says, as the bytes written must equal tobytes().
+        for start in range(0, len(self), chunk_size):
+            f.write(self._absolute_slice(start, min(start + chunk_size, len(self))).tobytes())
 
     def startswith(self, prefix: BitsType, start: Optional[int] = None, end: Optional[int] = None) -> bool:
         """Return whether the current bitstring starts with prefix.
